@@ -12,6 +12,7 @@
     AuthTrace requires load success and outcome = Admit with the entry's mount point.
 The broker level (CONNACK code, nothing created after a refusal) is added by the node harness.
 """
+import hashlib
 import json
 import os
 import random
@@ -42,7 +43,9 @@ def near_misses(u, p):
     """credentials that are almost right: the boundary between user name and password moved, the two swapped or joined,
     case or padding changed, one character short - none of them is the configured pair"""
     out = [(u[:-1], u[-1:] + p), (u + p[:1], p[1:]), (u + p, ""), ("", u + p), (p, u), (u + ":" + p, ""), (u, p + " "), (u + " ", p),
-           (u.upper(), p), (u, p.upper()), (u, p[:-1]), (u[:-1], p), (u, p + p), (u + "\x00", p)]
+           (u.upper(), p), (u, p.upper()), (u, p[:-1]), (u[:-1], p), (u, p + p), (u + "\x00", p),
+           # round 8: the stored fingerprint of the password is not the password; a password that hashes to the configured string is not it either
+           (u, hashlib.sha256(p.encode()).hexdigest()), (u, hashlib.sha256(p.encode()).hexdigest().upper())]
     return [{"u": a, "p": b} for a, b in out if (a, b) != (u, p)]
 
 
@@ -86,8 +89,16 @@ def check(run):
         table = [{"u": u, "p": "pw-" + u, "m": "" if i % 2 == 0 else "tenant-" + u[0], "t": True} for i, u in enumerate(USERS[:k + 1])]
         queries = [{"u": e["u"], "p": e["p"]} for e in table]
         scns.append({"kind": "file", "table": table, "order": list(range(len(table))), "queries": queries})
-    for u, p in [("admin", "secret"), ("", ""), ("a", ""), ("", "only-a-password"), ("ab", "ab")]:
-        qs = [{"u": a, "p": b} for a in (u, "", "other", u + "x") for b in (p, "", "other", p + "x")] + near_misses(u, p)
+    # round 8: passwords that look like something else - 64 hexadecimal digits (a token; as it happens the SHA-256 fingerprint of "test"),
+    # in either case, 63 and 65 digits - are passwords like any other, in the static store and in the file
+    HEX = hashlib.sha256(b"test").hexdigest()
+    odd = [("admin", HEX), ("admin", HEX.upper()), ("admin", HEX[:-1]), ("admin", HEX + "0")]
+    for u, p in odd:
+        scns.append({"kind": "file", "table": [{"u": u, "p": p, "m": ""}, {"u": "bob", "p": "pw-bob", "m": "tenant-b"}], "order": [0, 1],
+                     "queries": [{"u": u, "p": p}, {"u": u, "p": "test"}, {"u": u, "p": p.lower()}, {"u": u, "p": p.upper()}, {"u": "bob", "p": "pw-bob"}]
+                                + [q for q in near_misses(u, p)]})
+    for u, p in [("admin", "secret"), ("", ""), ("a", ""), ("", "only-a-password"), ("ab", "ab")] + odd:
+        qs = [{"u": a, "p": b} for a in (u, "", "other", u + "x") for b in (p, "", "other", p + "x", "test")] + near_misses(u, p)
         scns.append({"kind": "static", "table": [{"u": u, "p": p, "m": ""}], "order": [0], "queries": qs})
     # a reconnection storm: many goroutines put right, wrong and near-miss credentials to the one shared handler at once (the broker
     # authenticates on 20 concurrent workers); every single outcome must be what the table implies
